@@ -93,7 +93,7 @@ def run_case(case):
     evals = 0
     seen = set()
     for r in draws_for(vast, case.get('extra_draws', ())):
-        for ep in E.ENTRY_POINTS + ('ident',):
+        for ep in E.entry_points_for(node) + ('ident',):
             res = E.call_entry(ep, node, vast, spec, r)
             evals += 1
             sig = None
